@@ -55,6 +55,23 @@ pub fn comp_choices(alpha: &[Ty]) -> Vec<(Ty, Opt)> {
     v
 }
 
+/// documented mangling of type names: hyphens removed, the following character upper-cased
+fn rust_type_name(asn: &str) -> String {
+    let mut out = String::new();
+    let mut up = false;
+    for c in asn.chars() {
+        if c == '-' {
+            up = true;
+        } else if up {
+            out.push(c.to_ascii_uppercase());
+            up = false;
+        } else {
+            out.push(c);
+        }
+    }
+    out
+}
+
 fn name(i: usize) -> String {
     format!("c{i}")
 }
@@ -348,6 +365,35 @@ impl Prop for C02 {
                 }
             }
         }
+        // --- type names whose Rust form is not the snake-case inverse of the ASN.1 name (acronyms, one-letter words, digits):
+        // items derived from the name (default functions, hoisted types) must still be found under the names the
+        // annotations use.  Every 1..2-component SEQUENCE / SET over the alphabet without references.
+        fn refers(t: &Ty) -> bool {
+            match t {
+                Ty::Ref | Ty::SelfRef => true,
+                Ty::SeqOf(e) | Ty::SetOf(e) => refers(e),
+                other => other.uses_ref(),
+            }
+        }
+        let plain: Vec<(Ty, Opt)> = cc.iter().filter(|(t, _)| !refers(t)).cloned().collect();
+        let a_stub = Ty::Seq(Body::of(vec![Comp { name: "c0".into(), ty: Ty::Bool, opt: Opt::Req }]));
+        for tn in ["PDU-Header", "X-Y", "Ab-CD-e", "UE-Cap2", "Ty-1", "NGAP-PDU"] {
+            let mut lists: Vec<Vec<(Ty, Opt)>> = plain.iter().map(|c| vec![c.clone()]).collect();
+            if tier.thorough() || tn == "PDU-Header" {
+                for a in &plain {
+                    for b in &plain {
+                        lists.push(vec![a.clone(), b.clone()]);
+                    }
+                }
+            }
+            for l in lists {
+                let comps: Vec<Comp> = l.iter().enumerate().map(|(i, (t, o))| Comp { name: name(i), ty: t.clone(), opt: o.clone() }).collect();
+                for set in [false, true] {
+                    let t = if set { Ty::Set(Body::of(comps.clone())) } else { Ty::Seq(Body::of(comps.clone())) };
+                    out.push(Case { ty: a_stub.clone(), tagdef: "AUTOMATIC".into(), implied: false, others: vec![(tn.into(), t)] });
+                }
+            }
+        }
         let edges3 = ["req", "opt", "anon-seq", "anon-set", "anon-choice"];
         for ka in kinds {
             for ea in edges3 {
@@ -397,7 +443,7 @@ impl Prop for C02 {
         let mut cmp = Cmp { m, discs: vec![], visited: Default::default(), implied: c.implied, prefix: "shape", src: &full, check_ext: false, check_shape: true };
         cmp.top(&c.ty);
         for (n, t) in &c.others {
-            cmp.top_named(n, t);
+            cmp.top_named(&rust_type_name(n), t);
         }
         if c.ty.uses_ref() {
             cmp.visited.insert("T".into());
